@@ -68,7 +68,7 @@ CLAIMED = {
             "implementation: directory state before every operation (validated against real fork+os._exit for a sample), reopened by a fresh instance, compared with run_crash and checked by the property's own oracle.",
             "DESIGN.md section 6 C10", "crash = process death with completed file-system operations persisting in order: no power-loss / write-back reordering model"),
     "C13": ("Coq proof: GENERAL theorems for every invariant state, call and fault plan (others untouched, never wrong bytes, failed store_metadata keeps the old version, the call returns with no lock left unless the flock itself fails; FaultGeneral.v) plus reflective enumeration of ALL fault sites x {one-off, persistent} of each menu scenario by the kernel, lifted to every k by run_fault_beyond (CrashFault.v, Fault13_*.v); P-trace/P-fault correspondence",
-            "general: fault_others_untouched, fault_never_wrong_bytes, store_metadata_fault_intact, fault_returns_no_lock for all Inv states / calls / fault states; any_fault_success_whole_effect (a one-off OR persistent fault after which the call reports success left exactly the permanent files of the undisturbed call - all reachable states, all calls, all positions; FaultSuccess.v, FaultPersist.v); one_off_fault_pid_consistent (a store_object / tag_object that raises after a one-off fault leaves the pid's reference files as before the call or the pid completely unbound, never half-bound - all Inv states, pid bound or not, all variants; FaultBound.v); one_off_fault_retry / one_off_fault_intact_or_retry (after a one-off fault a raising tag_object, or store_object(pid) with any readable source and matching size / checksum, leaves the earlier binding intact, or the pid unbound AND the same call issued again at once succeeds from the world the failure left - temp files, untagged object - and binds the pid completely, others untouched; retryable_iff_succeeds: these are exactly the calls that can succeed for an unbound pid; FaultRetry.v); the literal full statement is PROVED false (persistent read failure defeats the roll-back: C13_general_statement_false = known finding D10); the 'unbound and storable again, or earlier binding intact' clause for persistent faults (and once more for one-off ones) is proved on the menu: fault_safe for 77 scenarios x all sites x 2 modes except the 80 points of known13 (proved to fail: D10), one_off_all_pass, no_lock_left; implementation: OSError(EIO/ENOSPC/EACCES) injected at the same site, outcome/state/locks compared with run_fault, property oracle on the implementation.",
+            "general: fault_others_untouched, fault_never_wrong_bytes, store_metadata_fault_intact, fault_returns_no_lock for all Inv states / calls / fault states; any_fault_success_whole_effect (a one-off OR persistent fault after which the call reports success left exactly the permanent files of the undisturbed call - all reachable states, all calls, all positions; FaultSuccess.v, FaultPersist.v); one_off_fault_pid_consistent (a store_object / tag_object that raises after a one-off fault leaves the pid's reference files as before the call or the pid completely unbound, never half-bound - all Inv states, pid bound or not, all variants; FaultBound.v); one_off_fault_retry / one_off_fault_intact_or_retry (after a one-off fault a raising tag_object, or store_object(pid) with any readable source and matching size / checksum, leaves the earlier binding intact, or the pid unbound AND the same call issued again at once succeeds from the world the failure left - temp files, untagged object - and binds the pid completely, others untouched; retryable_iff_succeeds: these are exactly the calls that can succeed for an unbound pid; FaultRetry.v); persistent_fault_consistent_or_D10 (a store_object / tag_object that raises after a PERSISTENT fault leaves no lock and leaves the pid's reference files as before the call, or the pid completely unbound, or is a member of the D10 family stated positively: the failing site's destination is the pid's reference file or the list of the call's cid, the pid had no reference, and now has one naming the call's cid with or without its list line - all Inv states, pid bound or not, all variants, all k: no other kind of damage exists; corollaries persistent_fault_bound_pid_consistent, persistent_fault_elsewhere_consistent; FaultPersistBound.v); the literal full statement is PROVED false (persistent read failure defeats the roll-back: C13_general_statement_false = known finding D10); the retry after a persistent fault (and, once more, the whole 'unbound and storable again, or earlier binding intact' clause for both modes) is proved on the menu: fault_safe for 77 scenarios x all sites x 2 modes except the 80 points of known13 (proved to fail: D10), one_off_all_pass, no_lock_left; implementation: OSError(EIO/ENOSPC/EACCES) injected at the same site, outcome/state/locks compared with run_fault, property oracle on the implementation.",
             "DESIGN.md section 6 C13", "faults are OSError raised at call entry of the failing operation (opens, renames, removes, mkdirs, file locks, and - since the last extension - every buffer write into a staging file and the append to a cid list; 83 scenarios incl. multi-buffer calls, 582 sites x 2 modes); the in-place rewrite / truncate of a cid list is not a site; reads of the caller's data source are searched on the implementation only; short writes / EINTR are not modelled"),
     "C07": ("Coq proof: reflective exhaustive exploration of ALL schedules of every menu scenario by a proved explorer (explore_sound, Sched.v; scenario_sound, Lin.v), one vm_compute per scenario; P-sched correspondence under a controlled scheduler",
             "general: (0) one_cid_taggers_linearizable - any number of tag_object calls of distinct pids on one cid are linearizable under every schedule, in cid-lock acquisition order (OneCid.v); (1) independence theorem - any pool of calls with pairwise disjoint footprints is linearizable under every schedule, equal to every sequential order (Indep.v); (2) mutual exclusion on every identifier and every modification of a cid reference list happens under that cid's lock, for any pool / schedule / fault pattern (Mutex.v); menu of conflicting calls: lin_pairs: 330 pairs (5 start states x 66 unordered pairs of an 11-call menu) and 245 triples of short calls, every schedule, linearizable and stored-is-retrievable, except the 27 pairs of known07 which are each PROVED to fail "
